@@ -162,7 +162,22 @@ def _selection_by_pieces(ctx: Ctx, tf, q: str, p: Path, slot: Term, tsrc: str, n
         if inplace:
             ctx.violated(tf, tf.node, label0, "start from a new list (or a copy) before adding the timed hooks", f"{short(parts[0])} is the registered list itself and is extended in place: timed hooks stay in the all-times bucket")
             return False
-    if len(parts) > 1:
+    from ..terms import normalise as _normalise
+
+    nb = _normalise(base)
+    keyed = (nb[0] == "comp" and len(nb[3]) == 2 and len(nb[3][0][0]) == 1 and len(nb[3][1][0]) == 1 and nb[2] == ("bound", nb[3][1][0][0])
+             and strip_ver(nb[3][0][1])[0] in ("tuple", "list") and not nb[3][1][2])
+    if keyed:
+        # [h for K in (a, b) if K in hooks for h in hooks[K]]: one guarded piece per listed key, in that order
+        kv = ("bound", nb[3][0][0][0])
+        guard_ok = list(nb[3][0][2]) == [("cmp", "in", kv, slot)]
+        src = strip_ver(nb[3][1][1])
+        src_ok = src == ("sub", slot, kv) or (src[0] == "call" and src[1] == ("attr", slot, "get") and len(src[2]) == 2 and src[2][0] == kv and src[2][1] == ("list", ()))
+        if not src_ok or not (guard_ok or (src[0] == "call" and not nb[3][0][2])):
+            return None
+        for K in strip_ver(nb[3][0][1])[1]:
+            pieces.append(("get", strip_ver(K)))
+    elif len(parts) > 1:
         for x in parts:
             pc = piece(x)
             if pc is None:
@@ -585,3 +600,11 @@ def h1(ctx: Ctx) -> None:
     from .c10 import r3 as record_fields_rule
 
     record_fields_rule(ctx)
+
+
+
+@rule("C13.H2", "times, names and hook types are compared by value wherever hooks are filed and selected (a step number or a name is never tested with `is`)", "T13 lint over Simulator, EventHook and the event classes", floor=30)
+def h2(ctx: Ctx) -> None:
+    from .events import check_identity_comparisons
+
+    check_identity_comparisons(ctx, ["Simulator", "EventHook", "EventABC"], floor=30)
